@@ -124,6 +124,29 @@ func checkC09(c caseC09) (viol string, nontrivial bool, feats []string) {
 	if !bytes.Equal(d1, d2) {
 		return fmt.Sprintf("dump of the loaded program differs from the original dump (%d vs %d bytes)", len(d2), len(d1)), false, feats
 	}
+	// Load on a Prog that has been used before (it owns a line table and
+	// constants of another program) must give the same program
+	var o3, l3 bytes.Buffer
+	used, uerr := bcl.Parse([]byte("var a = 1\nprint a\n\n\n# x\nprint a + 2\ndef q {\n z = 1\n}\n\n\n\n\n\n\n\n\n\n\n\n"), "used", bcl.OptOutput(&o3), bcl.OptLogger(&l3))
+	if uerr == nil {
+		var lpan any
+		var lerr2 error
+		func() {
+			defer func() { lpan = recover() }()
+			lerr2 = used.Load(bytes.NewReader(d1))
+		}()
+		if lpan != nil || lerr2 != nil {
+			return fmt.Sprintf("Load into a used Prog failed: %v %v", lpan, lerr2), false, feats
+		}
+		d3, pan3, derr3 := dumpOf(used)
+		if pan3 != nil || derr3 != nil || !bytes.Equal(d3, d1) {
+			return fmt.Sprintf("after Load into a used Prog the dump differs from the file loaded (%d vs %d bytes)", len(d3), len(d1)), false, feats
+		}
+		a3 := executeWith(used, &o3, &l3)
+		if errStr(a3.Err) != errStr(a1.Err) || a3.Log != a1.Log {
+			return fmt.Sprintf("a used Prog after Load behaves differently: err %q vs %q, log %q vs %q", errStr(a3.Err), errStr(a1.Err), a3.Log, a1.Log), false, feats
+		}
+	}
 	// the harness's own decoder must recover name and sizes
 	f, err := bc.Decode(d1)
 	if err != nil {
